@@ -7,4 +7,11 @@ LEVEL = "proof"
 def contracts():
     from contracts import lemmas
 
-    return smoothing.contracts() + [lemmas.rts_contract()]
+    from contracts import interp, ivp
+
+    out = smoothing.contracts() + [lemmas.rts_contract()]
+    # checkpoints inside a step: what the smoothers hand back for further stepping / interpolation (dynamic scale included)
+    for layout in ("dense", "isotropic", "blockdiag"):
+        c = ivp.Cfg(layout, "dynamic", "fixedpoint", "ts0", q=1, d=1)
+        out += [interp.interpolate_fwd_contract(c), interp.interpolate_at_t1_contract(c)]
+    return out
